@@ -26,7 +26,7 @@ COQ = os.path.join(ROOT, "coq")
 WORK = os.path.join(ROOT, ".work")
 HARNESS_SRC = os.path.join(ROOT, "harness")
 HARNESS_BIN = os.path.join(WORK, "harness")
-REPO = "/repo"
+REPO = os.environ.get("VERIF_REPO", "/repo")
 
 sys.path.insert(0, os.path.join(ROOT, "lib"))
 from props import PROPS, GEN_FILES  # noqa: E402
@@ -86,15 +86,20 @@ def tool_error(msg, out=""):
 # ---------------------------------------------------------------- build steps
 def build_harness(race=False):
     os.makedirs(WORK, exist_ok=True)
-    rc, out = sh(["cp", os.path.join(REPO, "go.sum"), os.path.join(HARNESS_SRC, "go.sum")])
-    cmd = ["go", "build", "-tags", "verif"]
+    # module file outside the source dir: go.sum is the repository's, the replace points at the tree under test
+    gm = open(os.path.join(HARNESS_SRC, "go.mod")).read().replace("=> /repo", "=> " + REPO)
+    modfile = os.path.join(WORK, "go.mod")
+    if not os.path.exists(modfile) or open(modfile).read() != gm:
+        open(modfile, "w").write(gm)
+    sh(["cp", os.path.join(REPO, "go.sum"), os.path.join(WORK, "go.sum")])
+    cmd = ["go", "build", "-tags", "verif", "-modfile", modfile]
     target = HARNESS_BIN
     if race:
         cmd.append("-race")
         target = HARNESS_BIN + "_race"
     rc, out = sh(cmd + ["-o", target, "."], cwd=HARNESS_SRC, timeout=900)
     if rc != 0:
-        tool_error("harness does not build against /repo working tree", out)
+        tool_error("harness does not build against the working tree of " + REPO, out)
     return target
 
 
@@ -106,9 +111,20 @@ def regen(tables):
 
 
 def ensure_makefile():
-    mk = os.path.join(COQ, "Makefile")
+    """_CoqProject is derived from the files present (no hand-maintained list)."""
+    files = []
+    for sub in ("Model", "Spec", "Gen", "Proofs", "Properties"):
+        d = os.path.join(COQ, sub)
+        if os.path.isdir(d):
+            files += sorted(os.path.join(sub, f) for f in os.listdir(d) if f.endswith(".v"))
+    for g in GEN_FILES.values():
+        if g not in files:
+            files.append(g)
+    txt = "-Q . V\n" + "\n".join(files) + "\n"
     cp = os.path.join(COQ, "_CoqProject")
-    if not os.path.exists(mk) or os.path.getmtime(mk) < os.path.getmtime(cp):
+    mk = os.path.join(COQ, "Makefile")
+    if not os.path.exists(cp) or open(cp).read() != txt or not os.path.exists(mk):
+        open(cp, "w").write(txt)
         rc, out = sh(["coq_makefile", "-f", "_CoqProject", "-o", "Makefile"], cwd=COQ)
         if rc != 0:
             tool_error("coq_makefile failed", out)
